@@ -32,8 +32,8 @@ def run_one(pid, edits, repo_src, tier="quick"):
     try:
         dst = os.path.join(tmp, "src")
         shutil.copytree(repo_src, dst, ignore=shutil.ignore_patterns("__pycache__", "*.pyc"))
-        for rel, old, new in edits:
-            apply_edit(dst, rel, old, new)
+        for rel, old, new, *cnt in edits:
+            apply_edit(dst, rel, old, new, *cnt)
         env = dict(os.environ)
         env["PYVC_OUT_DIR"] = tmp
         env.setdefault("PYVC_NF_BUDGET", "300")
